@@ -93,7 +93,8 @@ func (p *networkSimplexProcessor) auxiliaryGraph(g *graph.DGraph) *graph.DGraph 
 			v := p.nodes[l.Nodes[i]]
 			w := p.nodes[l.Nodes[i+1]]
 			f := graph.NewEdge(v, w, 0)
-			f.Delta = int(math.Round(p.distCenterPoints(v, w)))
+			// layers are integers: round up, never down, so that the spacing is at least the configured one
+			f.Delta = int(math.Ceil(p.distCenterPoints(v, w)))
 			g1.Edges = append(g1.Edges, f)
 
 			v.Out = append(v.Out, f)
